@@ -47,6 +47,13 @@ theorem ResetEffect.of_eq {s0 s s' : State} (e : s.resets = s0.resets) (h : Rese
   unfold ResetEffect at *
   rw [← e]; exact h
 
+theorem exportDone_resets (c : Cfg) (s : State) (h : Handler) (hi : Nat) (more : Bool) :
+    ResetEffect s (exportDone c s h hi more) := by
+  unfold exportDone
+  split
+  · exact (afterSend_resets c _ _ _ _).of_eq rfl
+  · exact Or.inl rfl
+
 theorem step_resets {c : Cfg} {s s' : State} {l : Label} (w : WF s) (hs : step c s l = some s') :
     ResetEffect s s' := by
   cases l with
@@ -115,12 +122,13 @@ theorem step_resets {c : Cfg} {s s' : State} {l : Label} (w : WF s) (hs : step c
     split at hs
     · simp at hs
     · split at hs
-      · split at hs
+      · rename_i lo hi more pos bad hpc
+        have f := exporterCall_fields s pos (chunkEnd c pos hi) r
+        split at hs
+        · simp at hs; subst hs; exact Or.inl f.2.2.2.2.2.2.2.2.2.1
         · split at hs
-          · simp at hs; subst hs; exact (afterSend_resets c _ _ _ _).of_eq rfl
-          · simp at hs; subst hs; exact Or.inl rfl
-        · simp at hs; subst hs; exact atSelect_resets c s _ _
-        · simp at hs; subst hs; exact (atSelect_resets c _ _ _).of_eq rfl
+          · simp at hs; subst hs; exact (atSelect_resets c _ _ _).of_eq f.2.2.2.2.2.2.2.2.2.1
+          · simp at hs; subst hs; exact (exportDone_resets c _ _ _ _).of_eq f.2.2.2.2.2.2.2.2.2.1
       · simp at hs
   | persist k ok coin =>
     have hw : ∀ (v : Nat) (t : State), (write ok v t).resets = t.resets := by
@@ -145,35 +153,98 @@ theorem step_resets {c : Cfg} {s s' : State} {l : Label} (w : WF s) (hs : step c
     · split at hs <;> simp at hs <;> subst hs <;> exact Or.inl rfl
 
 
-/-- What an `Accept` that reaches the exporter adds to `recv`: exactly the batch
-    the handler fetched right after its cursor. -/
+theorem exportDone_recv {c : Cfg} {s : State} {h : Handler} {hi : Nat} {more : Bool} (hns : h.stopReq = false) :
+    (exportDone c s h hi more).recv = s.recv ∧ (exportDone c s h hi more).delivHW = s.delivHW := by
+  unfold exportDone
+  split
+  · cases more <;> simp [afterSend, atSelect, hns, ack]
+  · simp [ack]
+
+/-- What an exporter call that is not a whole-call failure adds to `recv`: exactly
+    the next chunk of the page the handler fetched right after its cursor. -/
 theorem accept_delivers {c : Cfg} {s s' : State} {r : AcceptRes} (w : WF s)
     (hs : step c s (.accept r) = some s') (hr : r ≠ .fail) :
-    ∃ h lo hi m, s.handler = some h ∧ h.pc = .exporting lo hi m ∧ lo = h.last ∧ lo < hi ∧ hi ≤ s.nLogs ∧
-      s'.recv = (lo, hi) :: s.recv ∧ s'.delivHW = max s.delivHW hi := by
+    ∃ h lo hi m pos bad, s.handler = some h ∧ h.pc = .exporting lo hi m pos bad true ∧ lo = h.last ∧
+      lo ≤ pos ∧ pos < chunkEnd c pos hi ∧ chunkEnd c pos hi ≤ hi ∧ hi ≤ s.nLogs ∧
+      s'.recv = (pos, chunkEnd c pos hi) :: s.recv ∧ s'.delivHW = max s.delivHW (chunkEnd c pos hi) := by
   simp only [step] at hs
   split at hs
   · simp at hs
   · rename_i h hh
     split at hs
-    · rename_i lo hi m hpc
+    · rename_i lo hi m pos bad hpc
       have hok := w.pcOk h hh
       simp only [PcOk, hpc] at hok
+      have hb := chunkEnd_bounds (c := c) hok.2.2.2.2
       have hns : h.stopReq = false := by
         cases hst : h.stopReq with
         | false => rfl
         | true =>
           rcases (w.stopPending h hh hst).2 with e | ⟨m', e⟩ <;> simp [hpc] at e
-      refine ⟨h, lo, hi, m, hh, hpc, hok.1, hok.2.1, hok.2.2, ?_⟩
+      have hrecv : (exporterCall s pos (chunkEnd c pos hi) r).recv = (pos, chunkEnd c pos hi) :: s.recv ∧
+          (exporterCall s pos (chunkEnd c pos hi) r).delivHW = max s.delivHW (chunkEnd c pos hi) := by
+        cases r <;> simp_all [exporterCall, ackItems, deliver]
+      refine ⟨h, lo, hi, m, pos, bad, hh, hpc, hok.1, hok.2.2.2.1, hb.1, hb.2, hok.2.2.1, ?_⟩
       split at hs
+      · simp at hs; subst hs; exact hrecv
       · split at hs
         · simp at hs; subst hs
-          cases m <;> simp [afterSend, atSelect, hns, deliver, ack]
-        · simp at hs; subst hs; simp [deliver, ack]
-      · exact absurd rfl hr
-      · simp at hs; subst hs
-        simp [atSelect, hns, deliver]
+          simpa [atSelect, hns] using hrecv
+        · simp at hs; subst hs
+          have := exportDone_recv (c := c) (s := exporterCall s pos (chunkEnd c pos hi) r) (hi := hi) (more := m) hns
+          rw [this.1, this.2]; exact hrecv
     · simp at hs
+
+theorem exportDone_acked {c : Cfg} {s : State} {h : Handler} {hi : Nat} {more : Bool} (hns : h.stopReq = false) :
+    (exportDone c s h hi more).acked = s.acked ∧
+      ∃ h', (exportDone c s h hi more).handler = some h' ∧ h'.last = hi := by
+  unfold exportDone
+  split
+  · cases more <;> simp [afterSend, atSelect, hns, ack]
+  · simp [ack]
+
+/-- **The batcher's acknowledgement rule** (every configuration): the cursor moves
+    only when `Accept` reported the whole page as acknowledged, and then every log
+    of the page was acknowledged by the exporter item by item. -/
+theorem cursor_advance_acked {c : Cfg} {s s' : State} {r : AcceptRes} {h h' : Handler} (w : WF s) (cl : Clean s)
+    (hs : step c s (.accept r) = some s') (hh : s.handler = some h) (hh' : s'.handler = some h')
+    (hadv : h.last < h'.last) : ∀ k, h.last < k → k ≤ h'.last → Acked s' k := by
+  simp only [step, hh] at hs
+  split at hs
+  · rename_i lo hi m pos bad hpc
+    have hok := w.pcOk h hh
+    simp only [PcOk, hpc] at hok
+    obtain ⟨hlo, hlt, hle, hlp, hph⟩ := hok
+    have hb := chunkEnd_bounds (c := c) hph
+    have hns : h.stopReq = false := by
+      cases hst : h.stopReq with
+      | false => rfl
+      | true =>
+        rcases (w.stopPending h hh hst).2 with e | ⟨m', e⟩ <;> simp [hpc] at e
+    split at hs
+    · simp at hs; subst hs
+      simp at hh'; subst hh'; simp at hadv
+    · split at hs
+      · simp [atSelect, hns] at hs; subst hs
+        simp at hh'; subst hh'; simp at hadv
+      · rename_i hnb
+        simp at hs; subst hs
+        simp at hnb
+        obtain ⟨hb0, hr⟩ := hnb
+        cases r <;> simp [AcceptRes.isOk] at hr
+        have hend : chunkEnd c pos hi = hi := by omega
+        obtain ⟨ha, h2, hh2, hl2⟩ := exportDone_acked (c := c) (s := exporterCall s pos (chunkEnd c pos hi) .ok)
+          (hi := hi) (more := m) hns
+        rw [hh2] at hh'
+        simp at hh'; subst hh'
+        intro k h1 hk2
+        unfold Acked
+        rw [ha]
+        simp only [exporterCall, ackItems]
+        by_cases hkp : k ≤ pos
+        · exact List.mem_append_right _ (cl h lo hi m pos true hh (by rw [hpc, hb0]) k (by omega) hkp)
+        · exact List.mem_append_left _ (mem_idsOf.mpr ⟨by omega, by omega⟩)
+  · simp at hs
 
 theorem Chain.hw_of_nil {hw : Nat} (h : Chain [] hw) : hw = 0 := by
   generalize e : ([] : List (Nat × Nat)) = bs at h
